@@ -1,5 +1,5 @@
 #!/bin/sh
 # thorough tier of every property, from the snapshot; results are not evidence (re-run in /verif for that)
-for p in C16 C19 C06 C11 C10 C05 C04 C01 C17 C02 C08 C15 C18 C13 C07 C09 C20 C14 C03 C12; do
-  VC_JOBS=6 python3 vc.py $p thorough > thorough_$p.log 2>&1; echo "$p exit=$? $(tail -1 thorough_$p.log)"
+for p in C20 C03 C01 C09 C10 C11 C12 C13 C14 C15 C18 C06 C08 C04 C05 C07 C16 C17 C19 C02; do
+  VC_JOBS=12 python3 vc.py $p thorough > thorough_$p.log 2>&1; echo "$p exit=$? $(tail -1 thorough_$p.log)"
 done
